@@ -575,5 +575,49 @@ func runC10(c *Ctx) {
 			}
 		}
 		c.Oracle(n, ok, why)
+		// the same errors from handlers that implement every optional interface, through the operations those interfaces serve (and
+		// the plain commands): the client gets the error's kind, and the handlers are entered exactly once per request - an error value
+		// is an answer, not a reason to ask another entry point
+		rec2 := &recorder{ret: s.build()}
+		p2, err := newPair(pairOpt{reqServer: true, handlers: recHandlers(rec2, ifcSet{true, true, true, true, true, true})})
+		if err != nil {
+			continue
+		}
+		type opRes struct {
+			op    string
+			err   error
+			calls int
+		}
+		var rs2 []opRes
+		run := func(op string, f func() error) {
+			rec2.take()
+			e := f()
+			rs2 = append(rs2, opRes{op, e, len(rec2.take())})
+		}
+		run("posixrename", func() error { return p2.Client.PosixRename("/a", "/b") })
+		run("rename", func() error { return p2.Client.Rename("/a", "/b") })
+		run("symlink", func() error { return p2.Client.Symlink("/a", "/b") })
+		run("link", func() error { return p2.Client.Link("/a", "/b") })
+		run("remove-rmdir", func() error { return p2.Client.RemoveDirectory("/a") })
+		run("chmod", func() error { return p2.Client.Chmod("/a", 0o600) })
+		run("statvfs", func() error { _, e := p2.Client.StatVFS("/a"); return e })
+		run("lstat", func() error { _, e := p2.Client.Lstat("/a"); return e })
+		run("readlink", func() error { _, e := p2.Client.ReadLink("/a"); return e })
+		run("realpath", func() error { _, e := p2.Client.RealPath("/a"); return e })
+		p2.Close()
+		n2 := c.Case("handlererr-all", kvs("wrap", s.wrap), kvs("base", s.base), kvx("errno", uint64(s.errno)), kvx("fx", uint64(s.fx)))
+		c.NT(n2)
+		ok2, why2 := true, ""
+		for _, r := range rs2 {
+			got := catOfErr(r.err)
+			if want != "ok" && got != want && !(want == "eof" && (r.op == "lstat" || r.op == "readlink")) {
+				ok2, why2 = false, fmt.Sprintf("handler error %s/%s returned from %s reaches the client as %s, want %s", s.wrap, s.base, r.op, got, want)
+			}
+			if r.calls != 1 && ok2 {
+				ok2, why2 = false, fmt.Sprintf("handler-calls: %s with a handler that returns %s/%s entered the handlers %d times, want exactly once", r.op, s.wrap, s.base, r.calls)
+			}
+		}
+		c.Oracle(n2, ok2, why2)
+		c.Stat("handlererr_all_interfaces")
 	}
 }
